@@ -77,29 +77,37 @@ def _mech(m, pos):
             break
         n = n.parent
     d['innermost_scope'] = scope.type if scope is not None else 'module'
-    # enclosing bracket of a comprehension
+    # is the position inside a generator expression (any enclosing one up to the scope)?
+    def is_genexp(a):
+        if a.type == 'atom' and a.children[0] == '(' and len(a.children) == 3:
+            inner = a.children[1]
+            return inner.type == 'testlist_comp' and any(c.type in ('comp_for', 'sync_comp_for') for c in inner.children)
+        if a.type == 'argument':
+            return any(c.type in ('comp_for', 'sync_comp_for') for c in a.children)
+        return False
     n = leaf if leaf.type != 'operator' else leaf.parent
-    while n is not None and n.type not in ('atom', 'argument', 'trailer', 'funcdef', 'classdef', 'file_input'):
+    d['genexp'] = False
+    while n is not None and n is not scope:
+        if hasattr(n, 'children') and is_genexp(n):
+            d['genexp'] = True
+            break
         n = n.parent
-    if n is not None and n.type in ('atom', 'trailer', 'argument'):
-        first = n.get_first_leaf().value
-        has_comp = any(c.type in ('comp_for', 'sync_comp_for') for c in walk(n))
-        d['genexp'] = bool(has_comp and (first == '(' or n.type in ('argument', 'trailer')))
     # dead code: inside an if/while branch that a constant test rules out
     def const(t):
-        if hasattr(t, 'children'):
+        """truth value of a test made only of literals and operators (what a constant folder can decide), else None"""
+        import ast as _ast
+        try:
+            tree = _ast.parse('(' + t.get_code(include_prefix=False) + '\n)', mode='eval')
+        except Exception:
             return None
-        if t.value in ('False', 'None', '__debug__' if False else 'None'):
-            return False
-        if t.value in ('True', '...'):
-            return True
-        if t.type in ('number', 'string'):
-            try:
-                import ast as _ast
-                return bool(_ast.literal_eval(t.value))
-            except Exception:
-                return None
-        return None
+        ok = (_ast.Expression, _ast.Constant, _ast.UnaryOp, _ast.BinOp, _ast.BoolOp, _ast.Compare, _ast.Tuple, _ast.operator, _ast.unaryop,
+              _ast.boolop, _ast.cmpop, _ast.expr_context)
+        if not all(isinstance(x, ok) for x in _ast.walk(tree)):
+            return None
+        try:
+            return bool(eval(compile(tree, '<const>', 'eval'), {'__builtins__': {}}))
+        except Exception:
+            return None
     n = leaf.parent
     dead = False
     while n is not None and not dead:
@@ -131,18 +139,39 @@ def _mech(m, pos):
         root = scope if scope is not None else m
         occ = [x for x in walk(root) if x.type == 'name' and x.value == leaf.value and x.start_pos < leaf.start_pos]
         d['earlier_occurrences'] = len(occ)
-        d['earlier_occurrences_all_in_imports'] = bool(occ) and all(
-            x.search_ancestor('import_name', 'import_from') is not None for x in occ)
-
-        def in_nested_lambda(x):
-            a = x.parent
+        def kind_of(x):
+            if x.search_ancestor('import_name', 'import_from') is not None:
+                return 'import'
+            if x.search_ancestor('type_params') is not None:
+                return 'type_param'
+            a, prev = x.parent, x
             while a is not None and a is not root:
                 if a.type == 'lambdef':
-                    return True
-                a = a.parent
-            return False
-        d['earlier_occurrences_all_in_nested_lambda'] = bool(occ) and all(in_nested_lambda(x) for x in occ)
-        d['earlier_occurrences_all_in_type_params'] = bool(occ) and all(x.search_ancestor('type_params') is not None for x in occ)
+                    return 'lambda'
+                if a.type in ('param', 'parameters'):
+                    return 'param'
+                if a.type in ('funcdef', 'classdef'):
+                    if a.type == 'funcdef' and prev.type == 'tfpdef' or prev.type in ('typedargslist', 'tfpdef'):
+                        return 'param'
+                    return 'nested_scope' if prev.type == 'suite' or prev is a.children[-1] else 'plain_in_header'
+                if a.type in ('comp_for', 'sync_comp_for'):
+                    return 'comprehension'
+                if a.type in ('testlist_comp', 'dictorsetmaker', 'argument') and any(c.type in ('comp_for', 'sync_comp_for') for c in a.children):
+                    return 'comprehension'
+                if a.type == 'decorator':
+                    return 'decorator_dotted' if prev.type == 'dotted_name' and prev.children[0] is not x else 'plain'
+                prev, a = a, a.parent
+            if x.parent.type == 'trailer' and x.get_previous_sibling() == '.':
+                return 'attribute'
+            if x.parent.type == 'dotted_name' and x.parent.children[0] is not x:
+                return 'decorator_dotted'
+            if x.parent.type == 'argument' and x.get_next_sibling() == '=':
+                return 'keyword_argument_name'
+            return 'plain'
+        kinds = sorted({kind_of(x) for x in occ})
+        d['earlier_occurrence_kinds'] = kinds
+        d['earlier_occurrences_all_in_imports'] = bool(occ) and kinds == ['import']
+        d['earlier_occurrences_none_plain'] = bool(occ) and not any(k.startswith('plain') for k in kinds)
     return d
 
 
